@@ -1,6 +1,8 @@
 package hmodel
 
 import (
+	"github.com/datastax/go-cassandra-native-protocol/primitive"
+
 	"encoding/json"
 	"fmt"
 	"os"
@@ -16,9 +18,23 @@ type BfsCfg struct {
 	N, MP    int
 	Consume  bool
 	MaxDepth int
+	Dse1     bool
 }
 
-func (c BfsCfg) Name() string { return fmt.Sprintf("handler-N%d-mp%d-consume%v", c.N, c.MP, c.Consume) }
+func (c BfsCfg) Name() string {
+	v := "dse2"
+	if c.Dse1 {
+		v = "dse1"
+	}
+	return fmt.Sprintf("handler-N%d-mp%d-consume%v-%s", c.N, c.MP, c.Consume, v)
+}
+
+func (c BfsCfg) ver() primitive.ProtocolVersion {
+	if c.Dse1 {
+		return primitive.ProtocolVersionDse1
+	}
+	return primitive.ProtocolVersionDse2
+}
 
 // RegisterBfs registers the BFS model for cfg and returns it.
 func RegisterBfs(c BfsCfg) *bfs.Model {
@@ -29,7 +45,7 @@ func RegisterBfs(c BfsCfg) *bfs.Model {
 		OpName:   func(i int) string { return ops[i].String() },
 		MaxDepth: c.MaxDepth,
 		Run: func(path []int) (string, bool, []bfs.Viol) {
-			return Run(c.N, c.MP, ops, path)
+			return Run(c.N, c.MP, c.ver(), ops, path)
 		},
 	}
 	bfs.Register(m)
